@@ -86,6 +86,9 @@ def oracle(line: str, obs: Obs):
             st = before.get(c)
             if m["cmd"] == 280 and not m["R"] and st == "WAITDWA" and state.get(c) != "READY":
                 fails.append({"what": "DWA did not return the connection to ready", "event": ev, "real": state.get(c)})
+            if st == "WAITDWA" and not (m["cmd"] == 280 and not m["R"]) and state.get(c) == "READY":
+                fails.append({"what": "the connection stopped awaiting its DWA although no DWA was received (only a DWA returns it to "
+                                      "ready; without one it is closed when the DWA timeout expires)", "event": ev, "real": state.get(c)})
             if m["cmd"] == 280 and m["R"] and st in ("READY", "WAITDWA"):
                 outs = [kv(l) for l in lines if l.startswith(f"OUT {c} ")]
                 if len(outs) != 1 or outs[0]["rc"] != "2001" or outs[0]["cmd"] != "280" or outs[0]["hbh"] != str(m["hbh"]):
